@@ -94,6 +94,14 @@ fn render_inner(doc: &Doc, opts: &RenderOpts) -> Rendered {
     } else {
         state.out
     };
+    #[cfg(veryl_verif)]
+    {
+        let rendered = Rendered {
+            text: text.clone(),
+            anchors: state.anchors.clone(),
+        };
+        crate::verif::record(doc, opts, &rendered);
+    }
     Rendered {
         text,
         anchors: state.anchors,
